@@ -281,4 +281,125 @@ theorem reinterpolate_pardim3_proj (o : Obj K) (tol : K) (bu bv bw bu' bv' bw' :
   rw [su, sv, sw] at c1 c3
   exact ⟨_, hr, c1, c3⟩
 
+/-- `reinterpolate` of a volume net with the projection property of each direction given directly
+    (used by `lower_order`). -/
+theorem reinterpolate_pardim3_proj' (o : Obj K) (tol : K) (bu bv bw bu' bv' bw' : Basis K) (pu pv pw : Array K)
+    (A B D C : ℕ) (Niu Niv Niw : Mat K) (hb : o.bases = #[bu, bv, bw]) (hs : o.cps.shape = [A, B, D, C])
+    (hgu : bu'.greville = .ok pu) (hgv : bv'.greville = .ok pv) (hgw : bw'.greville = .ok pw)
+    (Hu : Mat.invChecked (Obj.basisMat bu' tol pu.toList 0 true) = .ok Niu)
+    (Hv : Mat.invChecked (Obj.basisMat bv' tol pv.toList 0 true) = .ok Niv)
+    (Hw : Mat.invChecked (Obj.basisMat bw' tol pw.toList 0 true) = .ok Niw)
+    (Eu Ev Ew : ℕ → ℕ → K)
+    (pju : Proj Niu (Obj.basisMat bu tol pu.toList 0 true) pu.size A pu.size Eu)
+    (pjv : Proj Niv (Obj.basisMat bv tol pv.toList 0 true) pv.size B pv.size Ev)
+    (pjw : Proj Niw (Obj.basisMat bw tol pw.toList 0 true) pw.size D pw.size Ew) :
+    ∃ T, o.reinterpolate tol [bu', bv', bw'] = .ok T ∧ T.shape = [pu.size, pv.size, pw.size, C] ∧
+      T.data.size = pu.size * (pv.size * pw.size) * C ∧
+      ∀ k0, k0 < pu.size → ∀ k1, k1 < pv.size → ∀ k2, k2 < pw.size → ∀ i, i < C →
+        T.entry4 pv.size pw.size C k0 k1 k2 i
+          = ∑ a0 ∈ range A, (∑ a1 ∈ range B, (∑ j ∈ range D, o.cps.entry4 B D C a0 a1 j i * Ew j k2) * Ev a1 k1)
+              * Eu a0 k0 := by
+  have hpd : o.pardim = 3 := by simp [Obj.pardim, hs]
+  obtain ⟨su, _⟩ := Mat.invChecked_spec _ Niu Hu
+  obtain ⟨sv, _⟩ := Mat.invChecked_spec _ Niv Hv
+  obtain ⟨sw, _⟩ := Mat.invChecked_spec _ Niw Hw
+  have r1 : (Obj.basisMat bu' tol pu.toList 0 true).nrows = pu.size := by simp [Mat.nrows, basisMat_size]
+  have r2 : (Obj.basisMat bv' tol pv.toList 0 true).nrows = pv.size := by simp [Mat.nrows, basisMat_size]
+  have r3 : (Obj.basisMat bw' tol pw.toList 0 true).nrows = pw.size := by simp [Mat.nrows, basisMat_size]
+  rw [r1] at su
+  rw [r2] at sv
+  rw [r3] at sw
+  set Nou := Obj.basisMat bu tol pu.toList 0 true with hNou
+  set Nov := Obj.basisMat bv tol pv.toList 0 true with hNov
+  set Now := Obj.basisMat bw tol pw.toList 0 true with hNow
+  have sou : Nou.size = pu.size := by simp [hNou, basisMat_size]
+  have sov : Nov.size = pv.size := by simp [hNov, basisMat_size]
+  have sow : Now.size = pw.size := by simp [hNow, basisMat_size]
+  have hr : o.reinterpolate tol [bu', bv', bw'] = .ok
+      (Tensor.tensordotFront Niu (Tensor.tensordotFront Niv (Tensor.tensordotFront Niw
+        (Tensor.tensordotFront Nou (Tensor.tensordotFront Nov (Tensor.tensordotFront Now o.cps 3) 3) 3) 3) 3) 3) := by
+    unfold Obj.reinterpolate
+    simp only [Obj.grevilles, hgu, hgv, hgw, hb, hpd]
+    simp only [List.zip_cons_cons, List.zip_nil_right, List.map_cons, List.map_nil, List.reverse_cons,
+      List.reverse_nil, List.nil_append, List.cons_append, List.foldl_cons, List.foldl_nil, Obj.solveChain]
+    rw [Hw]
+    simp only [Hv, Hu]
+    rfl
+  obtain ⟨c1, c2, c3⟩ := chain3_proj o.cps hs Nou Nov Now Niu Niv Niw Eu Ev Ew
+    (by rw [sou, su]; exact pju) (by rw [sov, sv]; exact pjv) (by rw [sow, sw]; exact pjw)
+  rw [su, sv, sw] at c1 c2 c3
+  exact ⟨_, hr, c1, c2, c3⟩
+
+
+/-- The same with the projection property of each direction given directly (`Proj`). -/
+theorem raiseImplicit_volume_eq_proj (o : Obj K) (tol : K) (hw : C06.WF o 3) (au av aw : ℕ) (bu' bv' bw' : Basis K)
+    (hru : (o.basis 0).raiseOrder tol au = .ok bu') (hrv : (o.basis 1).raiseOrder tol av = .ok bv')
+    (hrw : (o.basis 2).raiseOrder tol aw = .ok bw')
+    (pu pv pw : Array K) (hgu : bu'.greville = .ok pu) (hgv : bv'.greville = .ok pv)
+    (hgw : bw'.greville = .ok pw) (Niu Niv Niw : Mat K)
+    (Hu : Mat.invChecked (Obj.basisMat bu' tol pu.toList 0 true) = .ok Niu)
+    (Hv : Mat.invChecked (Obj.basisMat bv' tol pv.toList 0 true) = .ok Niv)
+    (Hw : Mat.invChecked (Obj.basisMat bw' tol pw.toList 0 true) = .ok Niw)
+    (Eu Ev Ew : ℕ → ℕ → K)
+    (pju : Proj Niu (Obj.basisMat (o.basis 0) tol pu.toList 0 true) pu.size (o.basis 0).numFunctions pu.size Eu)
+    (pjv : Proj Niv (Obj.basisMat (o.basis 1) tol pv.toList 0 true) pv.size (o.basis 1).numFunctions pv.size Ev)
+    (pjw : Proj Niw (Obj.basisMat (o.basis 2) tol pw.toList 0 true) pw.size (o.basis 2).numFunctions pw.size Ew) :
+    o.raiseOrderImplicit tol [au, av, aw] = .ok (renet (renet (renet o 0 bu' Eu) 1 bv' Ev) 2 bw' Ew) := by
+  have hb := bases_of_wf3 hw
+  have hs := shape_of_wf3 hw
+  obtain ⟨T, hT, hTs, hTd, hTe⟩ := reinterpolate_pardim3_proj' o tol (o.basis 0) (o.basis 1) (o.basis 2) bu' bv' bw'
+    pu pv pw _ _ _ _ Niu Niv Niw hb hs hgu hgv hgw Hu Hv Hw Eu Ev Ew pju pjv pjw
+  have hPu := greville_size bu' pu hgu
+  have hPv := greville_size bv' pv hgv
+  have hPw := greville_size bw' pw hgw
+  have himp : o.raiseOrderImplicit tol [au, av, aw]
+      = .ok { o with bases := [bu', bv', bw'].toArray, cps := T } := by
+    unfold Obj.raiseOrderImplicit
+    rw [hb]
+    simp only [Obj.raiseBases, hru, hrv, hrw]
+    rw [hT]
+  rw [himp]
+  congr 1
+  have hbases : ((o.bases.set! 0 bu').set! 1 bv').set! 2 bw' = [bu', bv', bw'].toArray := by
+    rw [hb]; simp [Array.set!]
+  have hb1 := C04.basis_set_ne o 0 1 (by decide) bu'
+    (Tensor.applyAxis (matOfE Eu (o.basis 0).numFunctions bu'.numFunctions) o.cps 0)
+  have hb2a := C04.basis_set_ne o 0 2 (by decide) bu'
+    (Tensor.applyAxis (matOfE Eu (o.basis 0).numFunctions bu'.numFunctions) o.cps 0)
+  have hren : renet (renet (renet o 0 bu' Eu) 1 bv' Ev) 2 bw' Ew
+      = { bases := [bu', bv', bw'].toArray,
+          cps := Tensor.applyAxis (matOfE Ew (o.basis 2).numFunctions bw'.numFunctions)
+            (Tensor.applyAxis (matOfE Ev (o.basis 1).numFunctions bv'.numFunctions)
+              (Tensor.applyAxis (matOfE Eu (o.basis 0).numFunctions bu'.numFunctions) o.cps 0) 1) 2,
+          rational := o.rational } := by
+    have hb2 : (renet (renet o 0 bu' Eu) 1 bv' Ev).basis 2 = o.basis 2 := by
+      have := C04.basis_set_ne (renet o 0 bu' Eu) 1 2 (by decide) bv'
+        (Tensor.applyAxis (matOfE Ev ((renet o 0 bu' Eu).basis 1).numFunctions bv'.numFunctions)
+          (renet o 0 bu' Eu).cps 1)
+      exact this.trans hb2a
+    have hb1' : (renet o 0 bu' Eu).basis 1 = o.basis 1 := hb1
+    show ({ (renet (renet o 0 bu' Eu) 1 bv' Ev) with
+        bases := (renet (renet o 0 bu' Eu) 1 bv' Ev).bases.set! 2 bw',
+        cps := Tensor.applyAxis (matOfE Ew ((renet (renet o 0 bu' Eu) 1 bv' Ev).basis 2).numFunctions bw'.numFunctions)
+          (renet (renet o 0 bu' Eu) 1 bv' Ev).cps 2 } : Obj K) = _
+    rw [hb2]
+    show ({ bases := ((renet o 0 bu' Eu).bases.set! 1 bv').set! 2 bw',
+            cps := Tensor.applyAxis (matOfE Ew (o.basis 2).numFunctions bw'.numFunctions)
+              (Tensor.applyAxis (matOfE Ev ((renet o 0 bu' Eu).basis 1).numFunctions bv'.numFunctions)
+                (renet o 0 bu' Eu).cps 1) 2,
+            rational := o.rational } : Obj K) = _
+    rw [hb1']
+    show ({ bases := ((o.bases.set! 0 bu').set! 1 bv').set! 2 bw', cps := _, rational := o.rational } : Obj K) = _
+    rw [hbases]
+    rfl
+  rw [hren]
+  congr 1
+  obtain ⟨sR, dR, eR⟩ := renet3_entries o.cps hs Eu Ev Ew bu'.numFunctions bv'.numFunctions bw'.numFunctions
+  rw [hPu, hPv, hPw] at hTs hTd hTe
+  have hTd' : T.data.size = bu'.numFunctions * bv'.numFunctions * bw'.numFunctions * o.ncomp := by
+    rw [hTd]; ring
+  exact Interp.tensor_ext4 _ T sR hTs dR hTd' (fun k0 hk0 k1 hk1 k2 hk2 i hi => by
+    rw [eR k0 hk0 k1 hk1 k2 hk2 i hi]; exact hTe k0 hk0 k1 hk1 k2 hk2 i hi)
+
+
 end Splipy
